@@ -13,11 +13,16 @@ import (
 	"os"
 	"runtime"
 	"runtime/pprof"
+	"sort"
+	"strings"
+	"sync"
+	"syscall"
 	"time"
 
 	"github.com/btcsuite/btcd/txscript/v2"
 
 	"verif/engine/ev"
+	"verif/ref/refscript"
 )
 
 func workers() int {
@@ -70,6 +75,7 @@ func btcdErrCode(s *Spend) string {
 }
 
 var theRun *ev.Run
+var dumpAll = os.Getenv("C06_DUMP") != ""
 
 // compare runs one spend on both sides; on disagreement (or panic) it records a
 // violation keyed by severity/layer/outcome-class.  policy selects the severity.
@@ -80,6 +86,12 @@ func compare(r *ev.Run, layer, desc string, s *Spend, policy bool) bool {
 	r.Eval(1)
 	r.Trace(1)
 	if !panicked && ok == (ref == "") {
+		return ref == ""
+	}
+	// A badly broken engine can disagree on millions of cases: fully triage only the
+	// first slowCap disagreements per (layer, flag set); count the rest.
+	if n := slowCount(layer); n > slowCap {
+		r.Add("disagreements_not_individually_triaged", 1)
 		return ref == ""
 	}
 	// re-run three times: the verdict must be stable
@@ -106,6 +118,34 @@ func compare(r *ev.Run, layer, desc string, s *Spend, policy bool) bool {
 		code = btcdErrCode(s)
 	}
 	key := fmt.Sprintf("%s/%s/core=%s/btcd=%s", sev, layer, refS, code)
+	// Label the disagreement when exactly one emulated, already-triaged btcd
+	// deviation explains it (the reference with that deviation switched on agrees
+	// with btcd on this very case).  Everything else keeps the generic key.
+	if !panicked && sev != "vector" {
+		label := ""
+		for _, q := range refscript.QuirkNames {
+			if (runRefQuirks(s, q.Q) == "") == ok {
+				label = q.Name
+				break
+			}
+		}
+		if label == "" {
+			var all refscript.Quirks
+			for _, q := range refscript.QuirkNames {
+				all |= q.Q
+			}
+			if (runRefQuirks(s, all) == "") == ok {
+				label = "combination-of-known-deviations"
+			}
+		}
+		if label != "" {
+			key = fmt.Sprintf("%s/deviation/%s", sev, label)
+			r.Add("deviation_cases/"+sev+"/"+label, 1)
+		}
+	}
+	if dumpAll {
+		fmt.Printf("DUMP %s | %s/core=%s/btcd=%s | %s\n", key, layer, refS, code, desc)
+	}
 	in := s.Tx.TxIn[s.Idx]
 	what := fmt.Sprintf("%s: btcd=%s(%s) but Core semantics=%s; flags=%s pkScript=[%s] scriptSig=[%s] witness=%d items; %s",
 		key, btcdClass(ok, errStr, panicked), errStr, refS, flagString(s.Flags),
@@ -138,23 +178,41 @@ func main() {
 		"L4 exact-limit constructions, L5 lock-time grid, W witness-program shapes) x flag sets; a case is non-trivial when it is a distinct (layer, flags, scripts, witness) tuple")
 	r.Assume("btcec ECDSA/Schnorr verification of a given 32-byte digest and secp256k1 point arithmetic are correct (subject of C11); SHA-256/SHA-1/RIPEMD-160 library implementations are correct")
 	r.Assume("refscript follows Bitcoin Core interpreter.cpp; it reproduces 100% of script_tests.json (non-macro cases), tx_valid.json, tx_invalid.json and taproot-ref vectors (checked at start of every run)")
+	// Time box.  The machine is shared, so the quick tier is boxed by CPU time
+	// (9 CPU-minutes, i.e. < 40 s on 16 idle cores) with a generous wall limit;
+	// thorough by wall clock.
 	if d, err := time.ParseDuration(os.Getenv("C06_BUDGET")); err == nil && d > 0 {
 		r.SetBudget(d)
+		cpuBudget = 0
 	} else if r.Thorough() {
 		r.SetBudget(13 * time.Minute)
+		cpuBudget = 0
 	} else {
-		r.SetBudget(85 * time.Second)
+		r.SetBudget(6 * time.Minute)
+		cpuBudget = 9 * time.Minute
 	}
 
 	t0 := time.Now()
-	st := bindVectors(r)
+	var st vecStats
+	if os.Getenv("C06_SKIPVEC") == "" {
+		st = bindVectors(r)
+	}
 	r.Set("vectors_bound", map[string]int{"script_tests": st.scriptTests, "tx_valid_inputs": st.txValidInputs,
 		"tx_invalid": st.txInvalid, "taproot_ref_success": st.taprootOK, "taproot_ref_failure": st.taprootFail,
 		"script_tests_taproot_macro_cases": st.taprootMacro, "skipped_tx_invalid_BADTX": st.skippedBadTx})
 	r.Set("t_vectors_s", time.Since(t0).Seconds())
 
 	exhaustive := true
+	only := os.Getenv("C06_LAYERS") // development aid: comma-separated layer names
+	// cheap, targeted layers first; the big enumerations last (they are the ones a
+	// time box may cut)
+	order := map[string]int{"L3": 0, "L4": 1, "L5": 2, "W": 3, "L1": 4, "L2": 5, "L1x": 6, "L2x": 7}
+	sort.SliceStable(layers, func(i, j int) bool { return order[layers[i].name] < order[layers[j].name] })
 	for _, l := range layers {
+		if only != "" && !strings.Contains(","+only+",", ","+l.name+",") {
+			exhaustive = false
+			continue
+		}
 		t := time.Now()
 		done := l.run(r)
 		r.Set("t_"+l.name+"_s", time.Since(t).Seconds())
@@ -169,6 +227,37 @@ func main() {
 }
 
 var profStop func()
+
+const slowCap = 2000
+
+var (
+	slowMu sync.Mutex
+	slowN  = map[string]int{}
+)
+
+func slowCount(layer string) int {
+	slowMu.Lock()
+	defer slowMu.Unlock()
+	slowN[layer]++
+	return slowN[layer]
+}
+
+var cpuBudget time.Duration
+
+// expired reports whether the wall-clock or CPU time box has been hit.
+func expired(r *ev.Run) bool {
+	if r.Expired() {
+		return true
+	}
+	if cpuBudget > 0 {
+		var ru syscall.Rusage
+		if syscall.Getrusage(syscall.RUSAGE_SELF, &ru) == nil {
+			used := time.Duration(ru.Utime.Nano() + ru.Stime.Nano())
+			return used > cpuBudget
+		}
+	}
+	return false
+}
 
 type layer struct {
 	name string
